@@ -49,6 +49,63 @@ CLAIMED['C08'] = dict(
           'independently in NumPy give the failing input. Convergence of the repeated cACG step is explored, not proved.'),
     design='6/C08', technique='Coq proof over Reals + in-Coq differential correspondence along recorded EM traces')
 
+CLAIMED['C07'] = dict(
+    text=('Theorems over the real-number instance of the Gallina model of the eight log_pdf routines (Gaussian full/diagonal/'
+          'spherical, complex Gaussian, vMF, complex Watson, complex Bingham, cACG), for every D, all parameters and evaluation '
+          'points: log_pdf equals the logarithm of the literature density. Gaussians and complex Gaussian under the written '
+          'contracts of the precision Cholesky factor (P P^T = Sigma^-1, log-det), solve and slogdet; diagonal and spherical have '
+          'no oracle. vMF and Watson normalisers are pinned by is_series to the Bessel and Kummer series with positivity proved, '
+          'and the Kummer series is proved to converge to the closed form. Bingham covers the sort / duplicate-spreading step and '
+          'permutation invariance of the partial-fraction normaliser (hypothesis: normaliser positive). cACG equals the normalised '
+          'density times 2 pi^D/(D-1)!, with E diag(1/lambda) E^H proved to be the inverse of B under the unitary contract and '
+          'det B = prod lambda as a contract. The executable truncated series are proved to be partial sums of the spec series. '
+          'NOT proved: exp(log_pdf) integrates to one (no surface measure on spheres is installed) - explored by quadrature. '
+          'Tie to /repo on every run: log_pdf of generated objects (non-diagonal SPD/HPD, condition <= 1e8, kappa in [1e-6,500], '
+          'Bingham gaps >= 1e-3 incl. clusters, D 1..8 / 2..6, 0..2 leading axes) is compared inside Coq with the model; ive / '
+          'hyp1f1 against the truncated series inside Coq; Cholesky / solve / slogdet / unitarity residuals per case; independent '
+          'predicates (scipy.stats, closed forms, 120-digit Kent sum, slices, inputs untouched) give the failing input.'),
+    design='6/C07', technique='Coq proof over Reals/Coquelicot (incl. Series) + in-Coq differential correspondence + quadrature')
+
+CLAIMED['C20'] = dict(
+    text=('Theorems, closed under the global context, for arbitrary state types, E/M steps, histories and budgets: a trainer '
+          'caching its dimension and dimension-only tables returns after any history what a fresh trainer returns or rejects '
+          'because the cached dimension differs (cache always consistent; fresh trainer accepts everything); fit(n1+...+nj) equals '
+          'consecutive fits continued from the returned model for every list of budgets, and any two splits of a budget agree; a '
+          'call is a function of (budget, start, explicit generator state), explicit starts neither read nor advance the generator, '
+          'a num_classes start depends on it through exactly one draw. Tie to /repo on every run: reused-trainer histories (<= 5 '
+          'earlier fits, same/different data, class count, options, feature dimension) compared bit-for-bit with a fresh trainer '
+          'and against the Coq state machine (accept/reject, cached dimension/table) for the four caching trainers; cACGMM split '
+          'law bit-for-bit for every continuation pair and executed compositions, recorded E/M step words compared with the model; '
+          'generator discipline. MONITORED, not proved: ~118 public entry points of the mixture, beamforming, masking, alignment '
+          'and metric modules are called with read-only arrays, bytes hashed before/after, and repeated for bitwise reproducibility '
+          '(memory effects are outside a pure functional model).'),
+    design='6/C20', technique='Coq proof (discrete, no axioms) + in-Coq state-machine correspondence + runtime monitoring of argument bytes')
+CLAIMED['C06'] = dict(
+    text=('Theorems for every rank and shape: C-order ravel/unravel round trips and block addressing of leading/trailing axes; a '
+          'reshape(-1, ...) -> per-row helper -> reshape-back pipeline returns at each leading index the helper applied to that '
+          'slice; a broadcast_to view of singleton axes equals the materialised repetition; a flat ellipsis contraction at a '
+          'leading index is the nested sum over that slice only; slice law of the EM loop for every iteration count (generic with '
+          'the two one-step hypotheses explicit; discharged for a family of per-index slices and for reshape(-1, ...) pipelines of '
+          'shape-local per-slice routines); a broadcast singleton start gives the trajectory of the repeated start. That each '
+          'pb_bss routine is per-index is established by the correspondence, not proved: stacks of 1..3 leading axes, sizes 1..5, '
+          'different content per slice vs each slice alone for all 8 distribution trainers + log_pdf and cACGMM/cWMM/cBMM/GMM/vMFMM '
+          '(well-defined observables, 1e-9 relative; 1e-7/1e-6 through the Watson spline / Bingham solver), singleton-axis starts '
+          'vs repeated starts, and inside Coq the bookkeeping functions vs numpy plus the single-slice models of Model/Trainers.v '
+          'vs the stacked implementation read at one leading index.'),
+    design='6/C06', technique='Coq proof (lists/nat + Reals) + in-Coq differential correspondence + stack-vs-slices predicates')
+CLAIMED['C02'] = dict(
+    text=('Theorems (Reals): pointwise Jensen/Gibbs inequality for any K; for all N, K, saliencies >= 0 the log-likelihood gain is '
+          'at least the gain of the auxiliary function Q (EM ascent); the mean-affiliation weight update maximises its part of Q; '
+          'weighted mean and variance maximise the weighted Gaussian log-likelihood per coordinate (diagonal/spherical); the cACG '
+          'surrogate touches and minorises -D ln q; induction over the iteration history: along every guard-free prefix the '
+          'log-likelihood is non-decreasing whenever each M-step does not decrease Q; the log_likelihood method (weights included, '
+          'stable logsumexp) equals sum_n ln sum_k pi_k p_k. Not proved: that the full-covariance Gaussian, cACG matrix and Watson '
+          'spline M-steps do not decrease Q - this hypothesis is EVALUATED on every recorded step of the implementation. Tie to '
+          '/repo on every run: recorded trajectories of cACGMM, cWMM, GMM (3 covariance types), GCACGMM over all tying / saliency / '
+          'normalisation options: independent log-likelihood non-decreasing on guard-free prefixes, Q(new|old) >= Q(old|old) per '
+          'step, CACGMM.log_likelihood compared inside Coq with the model.'),
+    design='6/C02', technique='Coq proof over Reals + per-step evaluation of the M-step hypothesis on recorded EM trajectories')
+
 NOT_YET = {}
 
 
